@@ -221,10 +221,12 @@ func TestVerifC03ConfChanged(t *testing.T) {
 	t.Cleanup(kit.Flush)
 
 	alice := c03Creds{true, "alice", "pw1A"}
+	reps := kit.EnvInt("C03_CONF_REPS", 4)
 
-	rapid.Check(t, func(t *rapid.T) {
-		proto := rapid.SampledFrom([]string{"rtsp", "rtsp", "rtmp", "srt"}).Draw(t, "proto")
-		target := rapid.SampledFrom([]string{"cam1", "live/cam2", "live/cam1", "mic7"}).Draw(t, "path")
+	// one scenario = one Core, one publisher, one sequence of edits
+	scenario := func(t *rapid.T, l string) (string, bool, []string) {
+		proto := rapid.SampledFrom([]string{"rtsp", "rtsp", "rtmp", "srt"}).Draw(t, l+"proto")
+		target := rapid.SampledFrom([]string{"cam1", "live/cam2", "live/cam1", "mic7"}).Draw(t, l+"path")
 		m := c03NewConfModel()
 		cs := &c03Case{
 			rtspAuth:  "basic",
@@ -232,14 +234,14 @@ func TestVerifC03ConfChanged(t *testing.T) {
 			pathsYAML: m.yaml(),
 		}
 		before := m.effective(target)
-		nEdits := rapid.IntRange(1, 3).Draw(t, "nEdits")
+		nEdits := rapid.IntRange(1, 3).Draw(t, l+"nEdits")
 		var edits []c03Edit
 		var undo c03Edit
 		haveUndo := false
 		touched := false
 		for i := 0; i < nEdits; i++ {
-			e := c03GenEdit(t, fmt.Sprintf("e%d.", i), m, target)
-			if i == nEdits-1 && i > 0 && haveUndo && rapid.IntRange(0, 2).Draw(t, "revert") == 0 && m.applicable(undo) {
+			e := c03GenEdit(t, fmt.Sprintf("%se%d.", l, i), m, target)
+			if i == nEdits-1 && i > 0 && haveUndo && rapid.IntRange(0, 2).Draw(t, l+"revert") == 0 && m.applicable(undo) {
 				e = undo // the last edit takes the first one back
 			}
 			if i == 0 {
@@ -401,9 +403,20 @@ func TestVerifC03ConfChanged(t *testing.T) {
 		for _, e := range edits {
 			cls = append(cls, "edit-"+e.op)
 		}
+		return desc, touched, cls
+	}
+
+	rapid.Check(t, func(t *rapid.T) {
+		var descs, cls []string
+		nontrivial := false
+		for r := 0; r < reps; r++ {
+			d, touched, c := scenario(t, fmt.Sprintf("s%d.", r))
+			descs = append(descs, d)
+			cls = append(cls, c...)
+			nontrivial = nontrivial || touched
+		}
 		sort.Strings(cls)
-		cls = c03Uniq(cls)
-		rec.Case(touched, desc, cls...)
+		rec.Case(nontrivial, strings.Join(descs, " || "), c03Uniq(cls)...)
 	})
 }
 
